@@ -1,11 +1,11 @@
 #!/bin/bash
 # confirm every not-yet-confirmed variant, one property worktree at a time
 for id in "$@"; do
-  for v in /tmp/mut3/$id/out/a /tmp/mut3/$id/out/b; do
+  for v in ${MUTROOT:-/tmp/mut4}/$id/out/a ${MUTROOT:-/tmp/mut4}/$id/out/b; do
     [ -f $v/patch.diff ] || continue
     [ -f $v/confirm.json ] && continue
-    /verif/tools/confirm_mutant.sh /tmp/mut3/$id $v > /dev/null 2>&1
+    /verif/tools/confirm_mutant.sh ${MUTROOT:-/tmp/mut4}/$id $v > /dev/null 2>&1
     echo "$id $(basename $v) $(python3 -c "import json;print(json.load(open('$v/confirm.json')).get('confirmed'))")"
   done
-  rm -rf /tmp/mut3/$id/target
+  rm -rf ${MUTROOT:-/tmp/mut4}/$id/target
 done
